@@ -120,6 +120,10 @@ func (g *gen) phrase() string {
 func (g *gen) queries(withKnownShape bool) []string {
 	qs := []string{"A", "T t " + g.word(), "T k " + g.kws[g.r.Intn(len(g.kws))]}
 	qs = append(qs, "P t "+[]string{"a", "an", "b", "c"}[g.r.Intn(4)])
+	if n := len(g.docs); n > 0 {
+		// lookups by _id: the last document of the first batch of the tail-merge recipe, and a random one
+		qs = append(qs, fmt.Sprintf("T _id d%d", max(0, n-3)), fmt.Sprintf("T _id d%d", g.r.Intn(n)))
+	}
 	qs = append(qs, g.rangeQ(), g.rangeQ())
 	qs = append(qs, g.phrase())
 	qs = append(qs, fmt.Sprintf("MA 2 %s %s", g.word(), g.word()))
@@ -236,6 +240,10 @@ func (h) Gen(r *hlib.Rand, tier string, scale int, emit func(string)) {
 		rp("junk", "dir=mem", "junk="+strconv.Itoa(r.Range(1, 3)), "parts="+g.randParts(n))
 		if n > 0 {
 			rp("updated", "dir="+[]string{"mem", "fs"}[r.Intn(2)], "upd="+strconv.Itoa(r.Range(1, min(n, 3))), "parts="+g.randParts(n))
+		}
+		if n >= 4 {
+			// a merge introduced BEHIND a surviving segment that has a pending deletion, searched on that very root
+			rp("tail-merge", "dir="+[]string{"mem", "fs"}[c%2], "tailmerge=1", "ver="+strconv.Itoa(1+c%2))
 		}
 		rp("junk-merge-reopen", "dir=fs", "junk=2", "merge=1", "reopen=1", "parts="+g.randParts(n))
 	}
